@@ -31,4 +31,189 @@ def inAR : Pc → Bool
   | .nACnt | .nAUnlock | .waACnt | .waAWake | .waAUnlock | .arUnlock | .auUnlock => true
   | _ => false
 
+def free (p : Pc) : Bool := !inHead p && !inSS p && !inAS p && !inSR p && !inAR p
+
+theorem inHead_of_free {p : Pc} (h : free p = true) : inHead p = false := by cases p <;> simp_all [free, inHead]
+theorem inSS_of_free {p : Pc} (h : free p = true) : inSS p = false := by cases p <;> simp_all [free, inSS, inHead]
+theorem inAS_of_free {p : Pc} (h : free p = true) : inAS p = false := by cases p <;> simp_all [free, inAS, inHead, inSS]
+theorem inSR_of_free {p : Pc} (h : free p = true) : inSR p = false := by cases p <;> simp_all [free, inSR, inHead, inSS, inAS]
+theorem inAR_of_free {p : Pc} (h : free p = true) : inAR p = false := by cases p <;> simp_all [free, inAR, inHead, inSS, inAS, inSR]
+
+/-- unfold every per-pc step definition -/
+macro "nx_unfold" "at" h:ident : tactic => `(tactic| simp only [nxIdle, nxRet, nxCClosed, nxCRx, nxTG, nxTP, nxTFadd, nxTCred, nxEId, nxERet, nxESpin, nxECas, nxWSt, nxNFence, nxNSC, nxNSLock, nxNSCnt, nxNSFlag, nxNSUnlock, nxNSUnpark, nxNAC, nxNALock, nxNACnt, nxNAUnlock, nxNAWake, nxSYield, nxRgLock, nxRgCnt, nxRgUnlock, nxRgFence, nxPkSpinLd, nxPkSpin, nxPkFlagLd, nxPkPark, nxPkSwap, nxFnLock, nxFnCnt, nxFnUnlock, nxFnFlagLd, nxFnSpin, nxUaLock, nxUaCnt, nxUaUnlock, nxRaLock, nxRaCnt, nxRaUnlock, nxRaFence, nxBoPark, nxCnAdd, nxClCas, nxClSub, nxWaSLock, nxWaSCnt, nxWaSFlag, nxWaSUnpark, nxWaSUnlock, nxWaALock, nxWaACnt, nxWaAWake, nxWaAUnlock, nxRcCas, nxRdStore, nxWsSLock, nxWsSFlag, nxWsSCnt, nxWsSUnlock, nxWsALock, nxWsACnt, nxWsAUnlock, nxWsUnpark, nxWsWake, nxRClosed, nxDLock, nxDId, nxDRetire, nxDSlot, nxDEmpty, nxDDr, nxDG, nxDUnlock, nxPDr, nxPPr, nxSFence, nxSSC, nxSSLock, nxSSFlag, nxSSCnt, nxSSUnlock, nxSUnpark, nxSAC, nxSALock, nxSACnt, nxSAUnlock, nxSAWake, nxRSc, nxFLock, nxFUnlock, nxRrLock, nxRrUnlock, nxRrCnt, nxRrFence, nxRpSpinLd, nxRpSpin, nxRpFlagLd, nxRpPark, nxFrLock, nxFrUnlock, nxFrCnt, nxFrFlagLd, nxFrSpin, nxRFlagReset, nxRYield, nxArLock, nxArUnlock, nxArCnt, nxArFence, nxAuLock, nxAuUnlock, nxAuCnt, nxLG, nxLD] at $h:ident)
+
+theorem free_retWith (x : Th) (r : Res) : free (retWith x r).pc = true := by cases x; rfl
+theorem free_retPending (x : Th) : free (retPending x).pc = true := by unfold retPending; split <;> rfl
+theorem free_tsCall (x : Th) (k : TsSite) : free (tsCall x k).pc = true := by cases x; rfl
+theorem free_enterLoop (x : Th) : free (enterLoop x).pc = true := by cases x; rfl
+theorem free_parkSeqS (c : Cfg) (x : Th) : free (parkSeqS c x).pc = true := by unfold parkSeqS; split <;> rfl
+theorem free_parkSeqR (c : Cfg) (x : Th) : free (parkSeqR c x).pc = true := by unfold parkSeqR; split <;> rfl
+theorem free_deqCall (x : Th) (k : DqSite) : free (deqCall x k).pc = true := by cases x; rfl
+theorem free_flushCall (x : Th) (k : FlSite) : free (flushCall x k).pc = true := by cases x; rfl
+theorem free_tsErr (c : Cfg) (x : Th) : free (tsErr c x).pc = true := by
+  unfold tsErr enterLoop parkSeqS retWith; repeat' split
+  all_goals rfl
+theorem free_tsOk (x : Th) : free (tsOk x).pc = true := by
+  unfold tsOk retWith; repeat' split
+  all_goals rfl
+theorem free_chkClosed (x : Th) : free (chkClosed x).pc = true := by
+  unfold chkClosed retWith; repeat' split
+  all_goals rfl
+theorem free_chkOpen (x : Th) : free (chkOpen x).pc = true := by
+  unfold chkOpen retWith tsCall retPending; repeat' split
+  all_goals rfl
+theorem free_nrDone (x : Th) : free (nrDone x).pc = true := by
+  unfold nrDone; split
+  · exact free_tsOk x
+  · rfl
+theorem free_finDone (x : Th) : free (finDone x).pc = true := by
+  unfold finDone retWith; repeat' split
+  all_goals rfl
+theorem free_deqDone (x : Th) : free (deqDone x).pc = true := by
+  unfold deqDone retWith flushCall retPending; repeat' split
+  all_goals rfl
+theorem free_scDone (x : Th) (n : Nat) : free (scDone x n).pc = true := by
+  unfold scDone retWith flushCall retPending deqCall; repeat' split
+  all_goals rfl
+theorem free_flushDone (c : Cfg) (x : Th) : free (flushDone c x).pc = true := by
+  unfold flushDone retWith parkSeqR deqCall; repeat' split
+  all_goals rfl
+theorem free_probeDone (c : Cfg) (x : Th) (d : Nat) : free (probeDone c x d).pc = true := by
+  unfold probeDone retWith; repeat' split
+  all_goals rfl
+theorem free_pollEntry (x : Th) : free (pollEntry x).pc = true := by
+  unfold pollEntry; repeat' split
+  all_goals rfl
+
+theorem pubDone_pc (x : Th) : (pubDone x).pc = .dDr ∨ (pubDone x).pc = .dId ∨ (pubDone x).pc = .fUnlock := by
+  unfold pubDone; split <;> simp
+theorem inHead_pubDone (x : Th) : inHead (pubDone x).pc = true := by unfold pubDone; split <;> rfl
+theorem inSS_pubDone (x : Th) : inSS (pubDone x).pc = false := by unfold pubDone; split <;> rfl
+theorem inAS_pubDone (x : Th) : inAS (pubDone x).pc = false := by unfold pubDone; split <;> rfl
+theorem inSR_pubDone (x : Th) : inSR (pubDone x).pc = false := by unfold pubDone; split <;> rfl
+theorem inAR_pubDone (x : Th) : inAR (pubDone x).pc = false := by unfold pubDone; split <;> rfl
+
+/-- how one step of thread `t` moves a mutex and `t`'s membership in its critical section -/
+def LockRel (inM : Pc → Bool) (m m' : Option Tid) (pc pc' : Pc) (t : Tid) : Prop :=
+  (m' = m ∧ inM pc' = inM pc) ∨ (m = none ∧ m' = some t ∧ inM pc' = true ∧ inM pc = false) ∨
+  (inM pc = true ∧ m' = none ∧ inM pc' = false)
+
+theorem free_callTh (c : Cfg) (s : State) (x x0 : Th) (op : Op) : free (callTh c s x x0 op).pc = true := by
+  cases op <;> simp only [callTh, retWith, deqCall] <;> (repeat' split) <;> rfl
+
+section LockSum
+attribute [local simp] inHead_of_free inSS_of_free inAS_of_free inSR_of_free inAR_of_free
+  free_retWith free_retPending free_tsCall free_enterLoop free_parkSeqS free_parkSeqR free_deqCall free_flushCall
+  free_tsErr free_tsOk free_chkClosed free_chkOpen free_nrDone free_finDone free_deqDone free_scDone
+  free_flushDone free_probeDone free_pollEntry inHead_pubDone inSS_pubDone inAS_pubDone inSR_pubDone inAR_pubDone
+
+set_option maxHeartbeats 4000000 in
+/-- Lock summary of a visible action: other threads are untouched; each mutex is either unchanged
+(and `t` stays in/out of its section), acquired from free by `t`, or released by `t`. -/
+theorem lock_sum {c s t a s'} (h : next c s t = some (a, s')) :
+    (∀ u, u ≠ t → s'.th u = s.th u) ∧
+    LockRel inHead s.mHead s'.mHead (s.th t).pc (s'.th t).pc t ∧
+    LockRel inSS s.mSS s'.mSS (s.th t).pc (s'.th t).pc t ∧
+    LockRel inAS s.mAS s'.mAS (s.th t).pc (s'.th t).pc t ∧
+    LockRel inSR s.mSR s'.mSR (s.th t).pc (s'.th t).pc t ∧
+    LockRel inAR s.mAR s'.mAR (s.th t).pc (s'.th t).pc t := by
+  unfold next at h
+  cases hpc : (s.th t).pc <;> simp only [hpc] at h <;> nx_unfold at h
+  all_goals (try (repeat' split at h))
+  all_goals (try (simp only [Option.some.injEq, Prod.mk.injEq, reduceCtorEq] at h))
+  all_goals (try (obtain ⟨-, rfl⟩ := h))
+  all_goals (try (refine ⟨fun u hu => by simp [upd_other, hu], ?_⟩))
+  all_goals (first | contradiction | skip)
+  all_goals (simp only [LockRel, upd_same, hpc])
+  all_goals (try simp [*])
+  all_goals (try (simp [inHead, inSS, inAS, inSR, inAR] <;> done))
+
+/-- call / return / spurious park return never touch a mutex and land outside every section -/
+theorem lock_sum_env {c s t a s'} {l : Label} (hl : l ≠ .act) (h : stepA c s t l = some (a, s')) :
+    (∀ u, u ≠ t → s'.th u = s.th u) ∧ free (s.th t).pc = true ∧ free (s'.th t).pc = true ∧
+    s'.mHead = s.mHead ∧ s'.mSS = s.mSS ∧ s'.mAS = s.mAS ∧ s'.mSR = s.mSR ∧ s'.mAR = s.mAR := by
+  cases l
+  · exact absurd rfl hl
+  · -- call
+    simp only [stepA, stepCall] at h
+    split at h
+    · split at h
+      · simp only [Option.some.injEq, Prod.mk.injEq] at h
+        obtain ⟨-, rfl⟩ := h
+        rename_i op rest hpc hprog hok
+        exact ⟨fun u hu => by simp [upd_other, hu], by rw [hpc]; rfl, by simp [free_callTh], rfl, rfl, rfl, rfl, rfl⟩
+      · simp at h
+    · simp at h
+  · -- ret
+    simp only [stepA, stepRet] at h
+    split at h
+    · simp only [Option.some.injEq, Prod.mk.injEq] at h
+      obtain ⟨-, rfl⟩ := h
+      rename_i hpc
+      refine ⟨fun u hu => by simp [upd_other, hu], by rw [hpc]; rfl, by simp [free, inHead, inSS, inAS, inSR, inAR], ?_⟩
+      simp
+    · simp at h
+  · -- spurious
+    simp only [stepA, stepSpurious] at h
+    split at h <;> simp only [Option.some.injEq, Prod.mk.injEq, reduceCtorEq] at h
+    all_goals (obtain ⟨-, rfl⟩ := h; rename_i hpc)
+    all_goals (refine ⟨fun u hu => by simp [upd_other, hu], by rw [hpc]; rfl, ?_, ?_⟩)
+    all_goals (first | (simp [free_pollEntry] <;> done) | (simp [free, inHead, inSS, inAS, inSR, inAR] <;> done))
+end LockSum
+
+/-- Lock discipline: a thread inside a critical section holds that section's mutex. -/
+structure LInv (s : State) : Prop where
+  head : ∀ u, inHead (s.th u).pc = true → s.mHead = some u
+  ss : ∀ u, inSS (s.th u).pc = true → s.mSS = some u
+  as : ∀ u, inAS (s.th u).pc = true → s.mAS = some u
+  sr : ∀ u, inSR (s.th u).pc = true → s.mSR = some u
+  ar : ∀ u, inAR (s.th u).pc = true → s.mAR = some u
+
+theorem lock_pres {inM : Pc → Bool} {m m' : Option Tid} {th th' : Tid → Th} {t : Tid}
+    (hI : ∀ u, inM (th u).pc = true → m = some u) (hth : ∀ u, u ≠ t → th' u = th u)
+    (hr : LockRel inM m m' (th t).pc (th' t).pc t) : ∀ u, inM (th' u).pc = true → m' = some u := by
+  intro u hu
+  by_cases hut : u = t
+  · subst hut
+    rcases hr with ⟨h1, h2⟩ | ⟨_, h2, _, _⟩ | ⟨_, _, h3⟩
+    · rw [h1]; exact hI u (by rw [← h2]; exact hu)
+    · exact h2
+    · rw [h3] at hu; exact absurd hu (by simp)
+  · rw [hth u hut] at hu
+    have hm := hI u hu
+    rcases hr with ⟨h1, _⟩ | ⟨h1, _, _, _⟩ | ⟨h1, _, _⟩
+    · rw [h1]; exact hm
+    · rw [h1] at hm; exact absurd hm (by simp)
+    · have := hI t h1; rw [this] at hm; exact absurd (Option.some.inj hm).symm hut
+
+theorem linv_init (c : Cfg) (p : Tid → List Op) : LInv (init c p) := by
+  constructor <;> intro u hu <;> simp [init, inHead, inSS, inAS, inSR, inAR] at hu
+
+theorem linv_step {c s t l s'} (hi : LInv s) (h : step c s t l = some s') : LInv s' := by
+  unfold step at h
+  cases hA : stepA c s t l with
+  | none => simp [hA] at h
+  | some r =>
+    obtain ⟨a, s1⟩ := r
+    simp [hA] at h; subst h
+    by_cases hl : l = .act
+    · subst hl
+      obtain ⟨hth, h1, h2, h3, h4, h5⟩ := lock_sum (by simpa [stepA] using hA)
+      exact ⟨lock_pres hi.head hth h1, lock_pres hi.ss hth h2, lock_pres hi.as hth h3,
+             lock_pres hi.sr hth h4, lock_pres hi.ar hth h5⟩
+    · obtain ⟨hth, hf, hf', e1, e2, e3, e4, e5⟩ := lock_sum_env hl hA
+      have rel : ∀ (inM : Pc → Bool) (m : Option Tid), inM (s.th t).pc = false → inM (s1.th t).pc = false →
+          LockRel inM m m (s.th t).pc (s1.th t).pc t := fun inM m a b => Or.inl ⟨rfl, by rw [a, b]⟩
+      refine ⟨?_, ?_, ?_, ?_, ?_⟩
+      · rw [e1]; exact lock_pres hi.head hth (rel _ _ (inHead_of_free hf) (inHead_of_free hf'))
+      · rw [e2]; exact lock_pres hi.ss hth (rel _ _ (inSS_of_free hf) (inSS_of_free hf'))
+      · rw [e3]; exact lock_pres hi.as hth (rel _ _ (inAS_of_free hf) (inAS_of_free hf'))
+      · rw [e4]; exact lock_pres hi.sr hth (rel _ _ (inSR_of_free hf) (inSR_of_free hf'))
+      · rw [e5]; exact lock_pres hi.ar hth (rel _ _ (inAR_of_free hf) (inAR_of_free hf'))
+
+theorem linv_reach {c p s} (h : Reach c p s) : LInv s := by
+  induction h with
+  | init => exact linv_init c p
+  | step _ hs ih => exact linv_step ih hs
+
 end Fv.Chan.Mpsc3B
